@@ -399,7 +399,7 @@ pub fn expect_served(case: &ConnCase) -> usize {
 }
 
 pub fn report(c: &mut Case, case: &ConnCase, w: &World, sig: &str, msg: String) {
-    let out = w.pipe.lock().unwrap().outbox.clone();
+    let out = w.pipe.lock().unwrap_or_else(std::sync::PoisonError::into_inner).outbox.clone();
     c.violation(
         sig,
         Json::obj()
@@ -426,7 +426,7 @@ pub fn run_one(c: &mut Case, opts: &GenOpts) {
     let (mut w, _runner) = conn::build_world(&case, rng);
     let end = w.run(400_000, |_, _| {});
     let (out, pend_r, pend_w, cuts) = {
-        let p = w.pipe.lock().unwrap();
+        let p = w.pipe.lock().unwrap_or_else(std::sync::PoisonError::into_inner);
         (p.outbox.clone(), p.pending_reads, p.pending_writes, (p.cut_in_header, p.cut_at_seam, p.cut_in_payload, p.cut_in_padding))
     };
     c.l.add("executor_steps", w.steps);
